@@ -168,7 +168,11 @@ def part_option_model(ck, exe, d, files, lib, truth, M):
             _, ft, ex_, line, bas, sol, wb = a
             want_rc = int(ex_)
             ok = (rc_ == want_rc) if "nosuch.bas" not in r["av"] else ((rc_ == 0) == (want_rc == 0))
-            if sol != "-":
+            if sol != "-" and r["nm"] and dec(sol).endswith("/" + r["nm"]) and line == "-":
+                # `-O f f`: the solution file IS the problem file, and no solution is written (the run fails): the file must still
+                # hold the problem, byte for byte
+                ok = ok and open(os.path.join(od, dec(sol)), "rb").read() == open(os.path.join(od, r["nm"]), "rb").read()
+            elif sol != "-":
                 text = read_sol(os.path.join(od, dec(sol)))
                 got = text.split("\n")[0] if text else None
                 ok = ok and (got == (dec(line) if line != "-" else None))
